@@ -77,6 +77,16 @@ def w_image(pid, tier, seed, job):
     rng = random.Random(job)
     if job % 4 == 3:
         img, parts, meta = roland_image(rng), None, {}
+    elif job % 4 == 2:
+        # siblings with identical stored names (files, volumes), L/R pairs: naming must not depend on the container either
+        import akai_writer as AW
+        import struct
+        vols = []
+        for vi in range(rng.randint(1, 3)):
+            names = [rng.choice(["KICK", "KICK", "SNARE", "PAD L", "PAD R", "X.."]) for _ in range(rng.randint(2, 6))]
+            vols.append(AW.Volume(rng.choice(["DRUMS", "DRUMS", "AB.."]), [AW.SampleFile(name=n, pcm=struct.pack("<3h", vi, i, 7)) for i, n in enumerate(names)]))
+        parts = [AW.Partition(vols, size_sectors=48)]
+        img, meta = AW.image_bytes(parts), {}
     else:
         img, parts, meta = C1.gen_image(rng, tier)
     if job % 3 == 1:
